@@ -78,8 +78,18 @@ func execC14(t *testing.T, c C14Case) (v Verdict) {
 		svc.Unary("u-ok", func(ctx context.Context, req []byte) ([]byte, error) { return req, nil })
 		svc.Unary("u-herr", func(ctx context.Context, req []byte) ([]byte, error) { return nil, status.Error(codes.Aborted, "no") })
 		svc.Unary("u-wait", func(ctx context.Context, req []byte) ([]byte, error) {
-			<-ctx.Done()
-			return nil, status.FromContextError(ctx.Err()).Err()
+			// A long-running handler that honours its context. goat does not convey a caller's
+			// cancellation of a *unary* call to the server (the protocol has no reset for unary
+			// calls), so a handler whose only exit is its context would occupy one of the eight
+			// unary workers for the rest of the connection; eight of them stop the read loop.
+			// That is an application-level hazard the property does not speak about, so the
+			// handler also finishes by itself after a (virtual) hour.
+			select {
+			case <-ctx.Done():
+				return nil, status.FromContextError(ctx.Err()).Err()
+			case <-time.After(time.Hour):
+				return req, nil
+			}
 		})
 		streamH := func(mode string) kit.StreamFn {
 			return func(s grpcServerStream) error {
